@@ -1,5 +1,5 @@
 (* WinFocusProofs.v -- proofs about the focus / cursor part of the window model (C15). *)
-From Coq Require Import ZArith List Bool Lia ZifyBool.
+From Coq Require Import ZArith List Bool Lia ZifyBool Permutation.
 From Tickit Require Import RectDefs WinRectSet WinDefs WinSpec.
 Import ListNotations.
 Local Open Scope Z_scope.
@@ -2366,4 +2366,253 @@ Proof.
     + constructor; [|constructor]. constructor; [intros k Hk; cbn in Hk; discriminate|].
       constructor; [|constructor]. constructor; [intros k Hk; cbn in Hk; discriminate|constructor].
   - split; vm_compute; reflexivity.
+Qed.
+
+(* ------------------------------------------------------------------------------------ *)
+(* Child-list edits: win_close (removal) and the restacks of do_hchange (permutations)   *)
+
+Lemma NoDup_app_intro : forall (a b : list Z), NoDup a -> NoDup b ->
+  (forall x, In x a -> In x b -> False) -> NoDup (a ++ b).
+Proof.
+  induction a as [|y a IH]; intros b Ha Hb Hd; [exact Hb|].
+  inversion Ha as [|? ? Hny Ha']; subst. cbn [app]. constructor.
+  - intro Hin. apply in_app_or in Hin. destruct Hin as [Hin|Hin]; [exact (Hny Hin)|].
+    apply (Hd y); [left; reflexivity|exact Hin].
+  - apply IH; [exact Ha'|exact Hb|]. intros x Hx. apply Hd. right. exact Hx.
+Qed.
+
+Lemma flat_map_sub : forall (g : wtree -> wtree) ch, NoDup (flat_map t_ids ch) ->
+  (forall c, In c ch -> NoDup (t_ids (g c)) /\ incl (t_ids (g c)) (t_ids c)) ->
+  NoDup (flat_map t_ids (map g ch)) /\ incl (flat_map t_ids (map g ch)) (flat_map t_ids ch).
+Proof.
+  intros g. induction ch as [|a r IH]; intros Hnd Hg; [split; [constructor|apply incl_refl]|].
+  cbn [map flat_map] in *.
+  destruct (Hg a (or_introl eq_refl)) as [Hna Hia].
+  destruct (IH (NoDup_app_r _ _ Hnd) (fun c Hc => Hg c (or_intror Hc))) as [Hnr Hir].
+  split.
+  - apply NoDup_app_intro; [exact Hna|exact Hnr|].
+    intros x Hx1 Hx2. eapply NoDup_app_disj; [exact Hnd|apply Hia; exact Hx1|apply Hir; exact Hx2].
+  - apply incl_app; [apply incl_appl; exact Hia|apply incl_appr; exact Hir].
+Qed.
+
+(* an edit of child lists that keeps ids unique and invents none *)
+Definition kids_edit_ok (f : list wtree -> list wtree) : Prop :=
+  forall l, NoDup (flat_map t_ids l) ->
+    NoDup (flat_map t_ids (f l)) /\ incl (flat_map t_ids (f l)) (flat_map t_ids l).
+
+Lemma upd_kids_nodup : forall f pid, kids_edit_ok f ->
+  forall t, NoDup (t_ids t) ->
+  NoDup (t_ids (t_upd_kids f pid t)) /\ incl (t_ids (t_upd_kids f pid t)) (t_ids t).
+Proof.
+  intros f pid Hf. induction t as [i ch IH] using wtree_ind'. intro Hnd.
+  apply node_nodup in Hnd. destruct Hnd as [Hni Hndch].
+  rewrite Forall_forall in IH.
+  destruct (flat_map_sub (t_upd_kids f pid) ch Hndch
+              (fun c Hc => IH c Hc (kids_nodup_in ch c Hndch Hc))) as [Hn1 Hi1].
+  cbn [t_upd_kids]. cbn zeta.
+  set (ch' := map (t_upd_kids f pid) ch) in *.
+  assert (HK : NoDup (flat_map t_ids (if w_id i =? pid then f ch' else ch')) /\
+               incl (flat_map t_ids (if w_id i =? pid then f ch' else ch')) (flat_map t_ids ch)).
+  { destruct (w_id i =? pid); [|split; assumption].
+    destruct (Hf ch' Hn1) as [Hn2 Hi2]. split; [exact Hn2|].
+    eapply incl_tran; [exact Hi2|exact Hi1]. }
+  destruct HK as [HKn HKi]. cbn [t_ids]. split.
+  - constructor; [|exact HKn]. intro Hin. apply Hni. apply HKi. exact Hin.
+  - apply incl_cons; [left; reflexivity|]. apply incl_tl. exact HKi.
+Qed.
+
+Lemma kids_remove_ok : forall id, kids_edit_ok (kids_remove id).
+Proof.
+  intros id l. unfold kids_remove. induction l as [|a r IH]; intro Hnd.
+  - split; [constructor|apply incl_refl].
+  - cbn [filter flat_map] in *. destruct (IH (NoDup_app_r _ _ Hnd)) as [Hn Hi].
+    destruct (negb (t_id a =? id)) eqn:E.
+    + cbn [flat_map]. split.
+      * apply NoDup_app_intro; [eapply NoDup_app_l; exact Hnd|exact Hn|].
+        intros x Hx1 Hx2. eapply NoDup_app_disj; [exact Hnd|exact Hx1|apply Hi; exact Hx2].
+      * apply incl_app; [apply incl_appl; apply incl_refl|apply incl_appr; exact Hi].
+    + split; [exact Hn|apply incl_appr; exact Hi].
+Qed.
+
+Theorem ids_unique_win_close : forall cfg st id,
+  ids_unique (r_tree st) -> ids_unique (r_tree (win_close cfg st id)).
+Proof.
+  intros cfg st id Hu. unfold ids_unique in *. rewrite win_close_tree.
+  destruct (t_chain id (r_tree st)) as [[|w [|p rest]]|]; try exact Hu.
+  rewrite t_update_ids by apply clear_link_id.
+  apply (upd_kids_nodup _ _ (kids_remove_ok id)). exact Hu.
+Qed.
+
+(* --- the restacks are permutations of one child list --- *)
+
+Lemma kids_raise_go_perm : forall id l prev, Permutation (kids_raise_go id prev l) (prev :: l).
+Proof.
+  intros id. induction l as [|x r IH]; intro prev; cbn [kids_raise_go]; [apply Permutation_refl|].
+  destruct (t_id x =? id); [apply perm_swap|].
+  eapply Permutation_trans; [apply perm_skip; apply IH|apply Permutation_refl].
+Qed.
+
+Lemma kids_raise_perm : forall id l, Permutation (kids_raise id l) l.
+Proof.
+  intros id [|a rest]; cbn [kids_raise]; [apply Permutation_refl|].
+  destruct (t_id a =? id); [apply Permutation_refl|apply kids_raise_go_perm].
+Qed.
+
+Lemma kids_lower_perm : forall id l, Permutation (kids_lower id l) l.
+Proof.
+  intros id. induction l as [|a rest IH]; cbn [kids_lower]; [apply Permutation_refl|].
+  destruct (t_id a =? id).
+  - destruct rest as [|b r]; [apply Permutation_refl|apply perm_swap].
+  - apply perm_skip. exact IH.
+Qed.
+
+Lemma kids_remove_none : forall id l, (forall c, In c l -> t_id c <> id) -> kids_remove id l = l.
+Proof.
+  intros id. unfold kids_remove. induction l as [|a r IH]; intro H; [reflexivity|].
+  cbn [filter]. pose proof (H a (or_introl eq_refl)) as Ha.
+  replace (t_id a =? id) with false by lia. cbn [negb]. f_equal. apply IH.
+  intros c Hc. apply H. right. exact Hc.
+Qed.
+
+Lemma kids_front_perm : forall id l w, NoDup (flat_map t_ids l) -> kids_find id l = Some w ->
+  Permutation (w :: kids_remove id l) l.
+Proof.
+  intros id. induction l as [|a r IH]; intros w Hnd Hf; [discriminate|].
+  unfold kids_find in Hf. cbn [find] in Hf. unfold kids_remove. cbn [filter].
+  destruct (t_id a =? id) eqn:E.
+  - inversion Hf; subst w. cbn [negb]. fold (kids_remove id r).
+    rewrite kids_remove_none; [apply Permutation_refl|].
+    intros c Hc Hcid.
+    assert (Hac : a = c).
+    { eapply (kids_unique (a :: r)); [exact Hnd|left; reflexivity|right; exact Hc|lia]. }
+    subst c. cbn [flat_map] in Hnd.
+    eapply NoDup_app_disj; [exact Hnd|apply t_ids_head|].
+    apply in_flat_map. exists a. split; [exact Hc|apply t_ids_head].
+  - cbn [negb]. fold (kids_remove id r). cbn [flat_map] in Hnd.
+    eapply Permutation_trans; [apply perm_swap|]. apply perm_skip.
+    apply IH; [eapply NoDup_app_r; exact Hnd|exact Hf].
+Qed.
+
+Lemma apply_hchange_perm : forall k id l, NoDup (flat_map t_ids l) ->
+  Permutation (apply_hchange k id l) l.
+Proof.
+  intros k id l Hnd. destruct k; cbn [apply_hchange].
+  - apply kids_raise_perm.
+  - destruct (kids_find id l) as [w|] eqn:Ef; [|apply Permutation_refl].
+    apply kids_front_perm; assumption.
+  - apply kids_lower_perm.
+  - destruct (kids_find id l) as [w|] eqn:Ef; [|apply Permutation_refl].
+    eapply Permutation_trans; [apply Permutation_sym; apply Permutation_cons_append|].
+    apply kids_front_perm; assumption.
+Qed.
+
+Definition kids_perm (f : list wtree -> list wtree) : Prop :=
+  forall l, NoDup (flat_map t_ids l) -> Permutation (f l) l.
+
+Lemma kids_perm_ok : forall f, kids_perm f -> kids_edit_ok f.
+Proof.
+  intros f Hf l Hnd. pose proof (Permutation_flat_map t_ids (Hf l Hnd)) as Hp. split.
+  - eapply Permutation_NoDup; [apply Permutation_sym; exact Hp|exact Hnd].
+  - intros x Hx. eapply Permutation_in; [exact Hp|exact Hx].
+Qed.
+
+Lemma upd_kids_wf : forall f pid, kids_perm f ->
+  forall t, NoDup (t_ids t) -> wf_focus t -> wf_focus (t_upd_kids f pid t).
+Proof.
+  intros f pid Hf. induction t as [i ch IH] using wtree_ind'. intros Hnd Hwf.
+  apply node_nodup in Hnd. destruct Hnd as [Hni Hndch].
+  apply wf_focus_inv in Hwf. destruct Hwf as [Hl Hch].
+  rewrite Forall_forall in IH, Hch.
+  destruct (flat_map_sub (t_upd_kids f pid) ch Hndch
+              (fun c Hc => upd_kids_nodup f pid (kids_perm_ok f Hf) c (kids_nodup_in ch c Hndch Hc)))
+    as [Hn1 _].
+  cbn [t_upd_kids]. cbn zeta.
+  set (ch' := map (t_upd_kids f pid) ch) in *.
+  assert (HK : forall x, In x (if w_id i =? pid then f ch' else ch') <-> In x ch').
+  { intro x. destruct (w_id i =? pid); [|reflexivity]. split; intro Hx.
+    - eapply Permutation_in; [apply Hf; exact Hn1|exact Hx].
+    - eapply Permutation_in; [apply Permutation_sym; apply Hf; exact Hn1|exact Hx]. }
+  constructor.
+  - intros k Hk. destruct (Hl k Hk) as [c [Hin [Hid Hv]]].
+    exists (t_upd_kids f pid c). split; [apply HK; unfold ch'; apply in_map; exact Hin|].
+    unfold t_id. rewrite t_upd_kids_info. split; assumption.
+  - rewrite Forall_forall. intros x Hx. apply HK in Hx. unfold ch' in Hx.
+    apply in_map_iff in Hx. destruct Hx as [c [Hc Hin]]. subst x.
+    apply IH; [exact Hin|exact (kids_nodup_in ch c Hndch Hin)|apply Hch; exact Hin].
+Qed.
+
+(* --- do_hchange and the queue loop of win_flush --- *)
+
+Lemma do_hchange_tree : forall st k pid wid,
+  r_tree (do_hchange st k pid wid) =
+  match t_find wid (r_tree st) with
+  | None => r_tree st
+  | Some _ => t_upd_kids (apply_hchange k wid) pid (r_tree st)
+  end.
+Proof.
+  intros st k pid wid. unfold do_hchange.
+  destruct (t_find wid (r_tree st)) as [w|]; [|reflexivity].
+  destruct (w_vis (t_info w)); [rewrite win_expose_tree|]; reflexivity.
+Qed.
+
+Theorem ids_unique_do_hchange : forall st k pid wid,
+  ids_unique (r_tree st) -> ids_unique (r_tree (do_hchange st k pid wid)).
+Proof.
+  intros st k pid wid Hu. unfold ids_unique in *. rewrite do_hchange_tree.
+  destruct (t_find wid (r_tree st)); [|exact Hu].
+  apply (upd_kids_nodup _ _ (kids_perm_ok _ (apply_hchange_perm k wid))). exact Hu.
+Qed.
+
+Theorem wf_focus_do_hchange : forall st k pid wid,
+  ids_unique (r_tree st) -> wf_focus (r_tree st) -> wf_focus (r_tree (do_hchange st k pid wid)).
+Proof.
+  intros st k pid wid Hu Hwf. unfold ids_unique in *. rewrite do_hchange_tree.
+  destruct (t_find wid (r_tree st)); [|exact Hwf].
+  apply (upd_kids_wf _ _ (apply_hchange_perm k wid)); assumption.
+Qed.
+
+Lemma do_hchange_root_info : forall st k pid wid,
+  t_info (r_tree (do_hchange st k pid wid)) = t_info (r_tree st).
+Proof.
+  intros st k pid wid. rewrite do_hchange_tree.
+  destruct (t_find wid (r_tree st)); [apply t_upd_kids_info|reflexivity].
+Qed.
+
+Lemma hchange_fold_inv : forall q s,
+  ids_unique (r_tree s) -> wf_focus (r_tree s) ->
+  let s' := fold_left (fun s e => match e with (k, p, w) => do_hchange s k p w end) q s in
+  ids_unique (r_tree s') /\ wf_focus (r_tree s') /\ t_info (r_tree s') = t_info (r_tree s).
+Proof.
+  induction q as [|[[k p] w] q IH]; intros s Hu Hwf; cbn zeta.
+  - cbn [fold_left]. repeat split; assumption.
+  - cbn [fold_left].
+    destruct (IH (do_hchange s k p w) (ids_unique_do_hchange _ _ _ _ Hu)
+                 (wf_focus_do_hchange _ _ _ _ Hu Hwf)) as [Hu' [Hwf' Hi']].
+    repeat split; [exact Hu'|exact Hwf'|]. rewrite Hi'. apply do_hchange_root_info.
+Qed.
+
+Lemma flush_pre_inv : forall st, ids_unique (r_tree st) -> wf_focus (r_tree st) ->
+  ids_unique (r_tree (flush_pre st)) /\ wf_focus (r_tree (flush_pre st)) /\
+  t_info (r_tree (flush_pre st)) = t_info (r_tree st).
+Proof.
+  intros st Hu Hwf. unfold flush_pre.
+  apply (hchange_fold_inv _ (set_queue (set_flags st (r_nexp st) (r_nrest st) false) [])); assumption.
+Qed.
+
+(* C15_flush with every hypothesis on the state BEFORE the flush, any restack queue *)
+Theorem C15_flush_pre : forall cfg hnd st tm st' tm' lg,
+  win_flush cfg hnd st tm = (st', tm', lg) ->
+  r_later st = true ->
+  r_nexp (flush_pre st) || r_nrest (flush_pre st) = true ->
+  ids_unique (r_tree st) -> wf_focus (r_tree st) -> w_vis (t_info (r_tree st)) = true ->
+  top (w_rect (t_info (r_tree st))) = 0 -> left (w_rect (t_info (r_tree st))) = 0 ->
+  cursor_of tm' = cursor_spec (r_tree st') /\
+  ids_unique (r_tree st') /\ wf_focus (r_tree st') /\ t_info (r_tree st') = t_info (r_tree st).
+Proof.
+  intros cfg hnd st tm st' tm' lg Hfl Hlater Hflags Hu Hwf Hv Ht Hl.
+  destruct (win_flush_shape _ _ _ _ _ _ _ Hfl Hlater) as [Htree _].
+  destruct (flush_pre_inv st Hu Hwf) as [Hu' [Hwf' Hi']].
+  rewrite <- Htree in Hu', Hwf', Hi'.
+  split; [|repeat split; assumption].
+  eapply C15_flush; try eassumption; rewrite Hi'; assumption.
 Qed.
